@@ -1238,7 +1238,7 @@ fn run(seed: u64, thorough: bool) -> Report {
     lookahead::run(&mut rep, &mut drv, &mut p, thorough);
 
     // G. prefix operators × operand kinds × postfix forms (class representatives first)
-    postfix::run(&mut rep, &mut drv, &mut p, thorough);
+    postfix::run_representatives(&mut rep, &mut drv);
 
     // A. operator sequences
     let mut seqs = vec![];
@@ -1261,6 +1261,8 @@ fn run(seed: u64, thorough: bool) -> Report {
     for chunk in compact.chunks(2000) {
         check_opseqs(&mut rep, &mut drv, chunk, true);
     }
+    // G, random part: nests of prefix / postfix / binary operators
+    postfix::run_random(&mut rep, &mut drv, &mut p, thorough);
     let grouping_ok = rep.impl_violations.is_empty();
 
     // B. evaluation of e vs fully parenthesised e; rejected chains
